@@ -22,6 +22,8 @@ TEXT = {
          "Kani/CBMC; database pick modelled by the specification's pick; async manager functions (get_user_data, get_user_state_versions, batch_get, begin/commit/rollback) not covered"),
  "C17": ("Bounded model checking of NodeLabel operations against an independent bit-string oracle: loop-free operations for ALL 32-byte values and ALL lengths 0..=256; is_prefix_of and get_longest_common_prefix for all bit patterns up to the stated symbolic length bound, both shipped configurations.",
          "Kani/CBMC; alloc::fmt::format stubbed (constant message); symbolic-length loops beyond the stated widths are outside the claim"),
+ "C08": ("Bounded symbolic execution of the rustc MIR of get_marker_versions (and helpers) into bit-vector SMT, regenerated from /repo on every run: the marker arithmetic that makes lookup and history proofs contradict each other is decided for ALL version/epoch triples below the stated width, on the real code's outputs, with unwinding assertions as queries; the one combination that does not conflict (single-marker lookup vs. complete history, F-C08) is reported as a known finding keyed by a closed-form predicate, any other hole is a violation.",
+         "own MIR->SMT encoder (vk/mirsmt) with ~17 std models, validated against native execution every run; z3 5.1 (bit-blast+SAT) decides, z3 4.8.12 / cvc5 cross-check; what accepted proofs commit the server to is read off the verifiers (C06/C07) and tree-level exclusivity is C05"),
  "C05": ("Bounded model checking of the real verify_membership / verify_nonmembership compiled against an ideal (injective, hash-consing) hash: for every leaf set, query label and candidate proof within the bound, a proof verifies only for a true statement, and proofs of the documented honest shape verify.",
          "Kani/CBMC; ideal hash (collision-free, no pre-images); honest tree = reference trie oracle; real blake3 formulas and the async proof generators are outside the claim"),
 }
